@@ -283,7 +283,8 @@ pub fn generate(seed: u64, tier: &str, sink: &mut Sink) {
     crate::p_c09::generate_chains(seed ^ 0xC07C, if tier == "thorough" { 3000 } else { 300 }, false, false, sink);
     let mut rng = Rng::new(seed ^ 0xC07);
     let n = if tier == "thorough" { 40_000 } else { 3000 };
-    let methods = ["GET", "POST", "PUT", "DELETE", "HEAD", "OPTIONS", "PATCH", "TRACE", "FOO", "M-SEARCH"];
+    // (method tokens are case-sensitive: `patch` is an extension method of its own, seed C07-seed12)
+    let methods = ["GET", "POST", "PUT", "DELETE", "HEAD", "OPTIONS", "PATCH", "TRACE", "FOO", "M-SEARCH", "get", "Post", "patch", "connect", "Head", "PURGE"];
     for _ in 0..n {
         let path: String = format!("/{}", gen_string(&mut rng, 12).replace(['#', '?'], ""));
         let base_q = if rng.chance(1, 3) { format!("?{}", rng.pick(&["a=1", "a=1&b=2", "x"])) } else { String::new() };
